@@ -387,7 +387,9 @@ def convert(source_las, *, point_format_id=None, file_version=None):
     header.set_version_and_point_format(version, point_format)
 
     if source_las.evlrs is not None:
-        evlrs = VLRList(source_las.evlrs.copy())
+        # the records are copied, like the VLRs with the header: the result
+        # must not share them with the source
+        evlrs = VLRList(copy.deepcopy(list(source_las.evlrs)))
     else:
         evlrs = None
 
